@@ -76,6 +76,7 @@ def programs(draw):
     ring = draw(st.integers(0, 3)) == 0
     return {
         "ring": ring,
+        "modular": draw(st.integers(0, 3)) == 0,
         "leaves": leaves, "reqs": reqs, "objs": objs, "dynamic": dyn,
         "mode2D": draw(st.sampled_from([False, False, True])),
         "seed": draw(st.integers(0, 10**6)),
@@ -134,7 +135,7 @@ def emit(p):
         terms = " + ".join(f"x{i}" for i in r["names"])
         bound = sum(leaves[i]["lo"] for i in r["names"]) + r["slack"]
         soft = f"[{r['soft']}]" if r["soft"] is not None else ""
-        if r["closure"]:
+        if r["closure"] and not p.get("modular"):
             L.append(f"def pred{j}():\n    return {terms} >= {bound}")
             L.append(f"require{soft} pred{j}()")
         else:
@@ -156,6 +157,22 @@ monitor M():
 """)
         L.append("require monitor M()")
         L.append(f"record ({msum}) as msum")
+    if p.get("modular"):
+        # the same statements as the setup block of a modular scenario: random values become
+        # scenario locals (snapshotted for requirements); definitions stay at top level
+        head, body = [], []
+        for item in L:
+            if item.startswith(("behavior ", "monitor ", "import ", "def ")):
+                head.append(item)
+            elif item.startswith("param "):
+                continue  # params are top-level only; the value stays reachable through foo
+            else:
+                body.append(item)
+        text = "\n".join(head) + "\nscenario Main():\n    setup:\n"
+        for item in body:
+            for line in item.split("\n"):
+                text += "        " + line + "\n"
+        return text
     return "\n".join(L) + "\n"
 
 
@@ -180,6 +197,8 @@ def features(p):
         f.append("mode2D")
     if p.get("ring") and not p["mode2D"]:
         f.append("nonconvex-mesh-workspace")
+    if p.get("modular"):
+        f.append("modular-setup-locals")
     f.append(f"history:{p['history']}")
     return f
 
